@@ -17,7 +17,7 @@
 From Coq Require Import List Arith NArith Bool Lia.
 From SV Require Import Base.Base IR.State Proofs.Inv1a Proofs.Inv2a Hier.Paths Hier.Enum Hier.Trace Hier.Conn
   Hier.TraceRoots Proofs.HierValid Proofs.HierEnum Proofs.HierUniq Proofs.HierClosure Proofs.HierTrace
-  Proofs.HierTracePort Proofs.HierCablesEx.
+  Proofs.HierTracePort Proofs.HierCables Proofs.HierCablesEx.
 Import ListNotations.
 
 (* ------------------------------------------------------------------------------------------ *)
@@ -382,6 +382,139 @@ Proof.
   split; [exact ex3_inv1a|]. split; [exact ex3_wfk|exact ex3_acyclic].
 Qed.
 
+
+(* ------------------------------------------------------------------------------------------ *)
+(* 5. the collection model restricted to one reference *)
+(* a single reference that is not an instance: the collection model is the single-reference model of
+   Hier/Trace.v, so every theorem of C12 about wire / pin / port / cable starts speaks about the
+   collection model as well *)
+Theorem get_hwires_entries_single : forall s x r pat usum bp obj,
+  head_not_instance s obj ->
+  get_hwires_entries s x r pat usum [(bp, obj)] = get_hwires s x r usum obj.
+Proof.
+  intros s x r pat usum bp obj Hn.
+  unfold get_hwires_entries, get_hwires. cbn [collect]. unfold hw_entry.
+  destruct (negb (is_valid s obj)).
+  { cbn. reflexivity. }
+  destruct obj as [|it rest].
+  { cbn. reflexivity. }
+  cbn in Hn.
+  destruct (kind_of s it) as [[]|]; try congruence; cbn [trip_app trip0 of_pair fst snd].
+  all: try (cbn; reflexivity).
+  - rewrite !app_nil_r. destruct (hw_close s x _ _); reflexivity.
+  - destruct (fold_left _ _ _) as [y st]. cbn [fst snd]. rewrite !app_nil_r.
+    destruct (hw_close s x _ _); reflexivity.
+  - destruct (hw_phase1_wire s x (it :: rest)) as [y st]. cbn [fst snd]. rewrite !app_nil_r.
+    destruct (hw_close s x _ _); reflexivity.
+Qed.
+
+Theorem get_hwires_roots_href_single : forall s x r pat usum obj,
+  head_not_instance s obj ->
+  get_hwires_roots s x r pat usum [RHref obj] = get_hwires s x r usum obj.
+Proof.
+  intros s x r pat usum obj Hn. unfold get_hwires_roots, with_roots, expand_roots.
+  cbn [rev app flat_opt fold_right expand_root].
+  apply get_hwires_entries_single. exact Hn.
+Qed.
+
+(* ... for instance: selection ALL from a reference to a wire occurrence, searched as a collection of
+   one root, is its connectivity class (C12_all) *)
+Theorem get_hwires_roots_ALL_wire : forall s t,
+  Inv1a s -> Inv2a s -> WFk s -> WFc s -> is_root s t ->
+  forall n U pat x, acyclic s -> top s n = Some t -> all_hwires s n = Some U -> hwire_occ s t x ->
+  exists l, get_hwires_roots s SAll false pat (pin_weight s U) [RHref x] = Some l /\
+            (forall b, In b l <-> Conn.conn s t x b).
+Proof.
+  intros s t I1 I2 K C Hroot n U pat x A Ht HU Hx.
+  rewrite get_hwires_roots_href_single.
+  - exact (get_hwires_ALL_class s t I1 I2 K C Hroot n U x A Ht HU Hx).
+  - destruct Hx as (w & c & y & p & -> & _ & _ & Hw). cbn.
+    rewrite (wk_kids s K RWires c w Hw). cbn. discriminate.
+Qed.
+
+(* ------------------------------------------------------------------------------------------ *)
+(* 6. yield order (get_ordered): the pattern loop *)
+Lemma fold_union_nodup (g : str -> list href) : forall pats acc,
+  NoDup acc -> NoDup (fold_left (fun acc p => href_union acc (g p)) pats acc).
+Proof.
+  induction pats as [|p pats IH]; intros acc H; cbn; [exact H|].
+  apply IH. apply href_union_nodup. exact H.
+Qed.
+
+Lemma fold_union_In (g : str -> list href) h : forall pats acc,
+  In h (fold_left (fun acc p => href_union acc (g p)) pats acc) <->
+  In h acc \/ exists p, In p pats /\ In h (g p).
+Proof.
+  induction pats as [|p pats IH]; intro acc; cbn.
+  - split; [auto|]. intros [H|(p & [] & _)]. exact H.
+  - rewrite IH, href_union_In. split.
+    + intros [[H|H]|(q & Hq & H)]; [auto|right; exists p; auto|right; exists q; auto].
+    + intros [H|(q & [<-|Hq] & H)]; [auto|auto|right; exists q; auto].
+Qed.
+
+Lemma names_first_In n : forall l seen, In n (names_first seen l) <-> In n seen \/ In n l.
+Proof.
+  induction l as [|m l IH]; intro seen; cbn; [tauto|].
+  destruct (existsb (str_eqb m) seen) eqn:E; rewrite IH.
+  - apply existsb_exists in E as (m' & Hm' & E). apply str_eqb_spec in E. subst m'.
+    split; [tauto|]. intros [H|[<-|H]]; auto.
+  - rewrite in_app_iff. cbn. tauto.
+Qed.
+
+Lemma under_In (regs : list (str * href)) nm h :
+  In h (map snd (filter (fun e => str_eqb (fst e) nm) regs)) <-> In (nm, h) regs.
+Proof.
+  rewrite in_map_iff. split.
+  - intros ((nm' & h') & E & Hf). cbn in E. subst h'. apply filter_In in Hf as (Hin & Hn).
+    cbn in Hn. apply str_eqb_spec in Hn. subst nm'. exact Hin.
+  - intro H. exists (nm, h). split; [reflexivity|]. apply filter_In. split; [exact H|].
+    cbn. apply str_eqb_spec. reflexivity.
+Qed.
+
+(* the pattern loop yields each reference once, and exactly the registered references whose name
+   some pattern selects *)
+Theorem pattern_loop_nodup ab mt pats regs : NoDup (pattern_loop ab mt pats regs).
+Proof. unfold pattern_loop. cbv zeta. apply fold_union_nodup. constructor. Qed.
+
+Theorem pattern_loop_In ab mt pats regs h :
+  In h (pattern_loop ab mt pats regs) <->
+  exists nm, In (nm, h) regs /\ pat_sel ab mt pats nm = true.
+Proof.
+  unfold pattern_loop. cbv zeta. rewrite fold_union_In. cbn [In]. unfold pat_sel. split.
+  - intros [[]|(p & Hp & H)]. destruct (ab p) eqn:Ea.
+    + apply under_In in H. exists p. split; [exact H|]. apply existsb_exists. exists p.
+      split; [exact Hp|]. rewrite Ea. apply str_eqb_spec. reflexivity.
+    + apply in_flat_map in H as (nm & Hnm & H). apply filter_In in Hnm as (_ & Hm).
+      apply under_In in H. exists nm. split; [exact H|]. apply existsb_exists. exists p.
+      split; [exact Hp|]. rewrite Ea. exact Hm.
+  - intros (nm & Hin & H). right. apply existsb_exists in H as (p & Hp & H). exists p.
+    split; [exact Hp|]. destruct (ab p) eqn:Ea.
+    + apply str_eqb_spec in H. subst p. apply under_In. exact Hin.
+    + apply in_flat_map. exists nm. split; [|apply under_In; exact Hin].
+      apply filter_In. split; [|exact H]. apply names_first_In. right.
+      apply in_map_iff. exists (nm, h). auto.
+Qed.
+
+(* the ordered answer, as a set, is the answer of the collection model for that one root: the same
+   references are selected (those registered whose relative name some pattern selects) *)
+Theorem get_ordered_elements : forall s k r ab mt pats obj l,
+  get_ordered s k r ab mt pats obj = Some (Some l) -> is_valid s obj = true ->
+  exists regs nms, registrations s k r obj = Some regs /\
+    all_some (map (rel_name s (pred (length obj))) regs) = Some nms /\ NoDup l /\
+    (forall h, In h l <-> exists nm, In (nm, h) (combine nms regs) /\ pat_sel ab mt pats nm = true).
+Proof.
+  intros s k r ab mt pats obj l H Hv. unfold get_ordered in H. rewrite Hv in H. cbn [negb] in H.
+  destruct (registrations s k r obj) as [regs|]; [|discriminate].
+  destruct (all_some _) as [nms|] eqn:Ea; [|discriminate].
+  inversion H; subst l. exists regs, nms. split; [reflexivity|]. split; [exact Ea|].
+  split; [apply pattern_loop_nodup|]. intro h. apply pattern_loop_In.
+Qed.
+
+Example ex3_ordered :
+  get_ordered ex3 OWires true (fun _ => false) (fun _ _ => true) [[42%N]] [14]
+  = Some (Some [[12; 11; 14]; [13; 11; 14]; [7; 6; 10; 14]; [8; 6; 10; 14]]).
+Proof. vm_compute. reflexivity. Qed.
+
 Print Assumptions get_hwires_roots_nodup.
 Print Assumptions get_hcables_roots_nodup.
 Print Assumptions get_hpins_roots_nodup.
@@ -393,3 +526,8 @@ Print Assumptions get_hwires_entries_ALL.
 Print Assumptions get_hwires_entries_ALL_union.
 Print Assumptions get_hwires_ALL_instance.
 Print Assumptions roots_hypotheses_satisfiable.
+Print Assumptions get_hwires_entries_single.
+Print Assumptions get_hwires_roots_ALL_wire.
+Print Assumptions pattern_loop_In.
+Print Assumptions pattern_loop_nodup.
+Print Assumptions get_ordered_elements.
